@@ -2,6 +2,11 @@ use std::time::Duration;
 use verif_sim::props;
 use verif_sim::simkit::runner::{install_panic_hook, replay_file, run_batch, BatchCfg, Tier};
 
+// Counting allocator: lets C15 bound the memory a decoder call may take (per-thread budget; it only
+// counts, it never fails an allocation).
+#[global_allocator]
+static GLOBAL: verif_sim::props::c15::CountingAlloc = verif_sim::props::c15::CountingAlloc;
+
 fn usage() -> ! {
     eprintln!("usage: check <ID> [--tier quick|thorough] [--replay FILE] [--runs N] [--threads N] [--wall SECS]\n       env VERIF_SEED, VERIF_TIER");
     std::process::exit(2);
